@@ -34,6 +34,22 @@ Proof.
   rewrite named_clause_is_strip_vendor. cbn [andb]. reflexivity.
 Qed.
 
+(* ---- every entry of matchIdentical (the public one and every recursive one, whatever the pattern node) first replaces the
+   matched type by what it is an alias of, and only then dispatches on the pattern node: the model's `let t := unalias_top t0` *)
+Lemma match_prologue_is_unalias : gen_match_prologue = ["typ = types.Unalias(typ)"] /\ gen_match_switch_tag = "sub.op".
+Proof. split; reflexivity. Qed.
+
+Lemma unalias_top_idem t : unalias_top (unalias_top t) = unalias_top t.
+Proof.
+  induction t as [h xs IH] using gtype_ind'. destruct h; try reflexivity.
+  destruct xs as [|r [|? ?]]; try reflexivity. cbn [unalias_top]. inversion IH; subst; assumption.
+Qed.
+
+(* the model applies the same step at every entry, for every pattern node: matching a type and matching what it is an alias of
+   are the same thing at any depth *)
+Lemma model_unaliases_at_every_entry : forall ident p t st k, match_k ident p t st k = match_k ident p (unalias_top t) st k.
+Proof. intros. destruct p; cbn [match_k]; cbv zeta; rewrite ?unalias_top_idem; reflexivity. Qed.
+
 (* ---- builtinTypeByName: every predeclared type name a pattern can use stands for the basic type of that name
    (go/types kind numbers), byte for uint8, rune for int32, error for the universe type *)
 Definition builtin_spec : list (string * Z) := [
